@@ -196,6 +196,27 @@ def run(tier):
                                      config=dict(kind='prefetch2', n=n, w=w, b=b, how=how)))
         except Exception as e:
             failures.append(dict(kind='history', summary=f'two iterations in flight over prefetch({w}, {b}) above a reshuffle raised {type(e).__name__}: {e}'[:300], config=dict(kind='prefetch2', n=n)))
+    # shuffles of examples that include None / other falsy values, read through the compositions that put two iterations in flight
+    # (self-intersperse, self-zip): every example - the falsy ones too - is delivered once per position
+    for _ in range(200 if big else 30):
+        vals = [r.choice([None, 0, '', (), 7, 'x', False]) for _i in range(r.randint(1, 6))]
+        vals = [(i, v) if r.random() < 0.0 else v for i, v in enumerate(vals)]
+        kind = r.choice(['local', 'once', 'local_big'])
+        seed = r.randint(0, 10 ** 6)
+        base = ld.new(list(vals))
+        try:
+            sh = base.shuffle(True, rng=np.random.RandomState(seed), buffer_size=3) if kind == 'local' else \
+                base.shuffle(False, rng=np.random.RandomState(seed)) if kind == 'once' else base.shuffle(True, rng=np.random.RandomState(seed), buffer_size=50)
+            out_i = [repr(x) for x in ld.intersperse(sh, sh)]
+            out_z = [tuple(repr(y) for y in t) for t in ld.zip(sh, sh)]
+            want = collections.Counter(repr(v) for v in vals)
+            ok = collections.Counter(out_i) == collections.Counter({k: 2 * c for k, c in want.items()}) and \
+                all(collections.Counter(col) == want for col in (zip(*out_z) if out_z else [[], []])) and len(out_z) == len(vals)
+            if not ok:
+                failures.append(dict(kind='history', summary=f'{kind} shuffle of {vals!r}: self-intersperse delivers {out_i}, self-zip {out_z} - every example must appear once per position'[:500],
+                                     config=dict(kind='falsy_shuffle', vals=[repr(v) for v in vals], how=kind)))
+        except Exception as e:
+            failures.append(dict(kind='history', summary=f'{kind} shuffle of {vals!r} in a self-intersperse / self-zip raised {type(e).__name__}: {e}'[:300], config=dict(kind='falsy_shuffle')))
     # (b) local shuffle
     lcases, lmeta = [], []
     for _ in range(3000 if big else 300):
